@@ -18,14 +18,12 @@ TwoDiffDone == {Cfg(2, <<1, 2>>, 2, {"done"}, FALSE)}
 TwoSameDone == {Cfg(2, <<1, 1>>, 2, {"done"}, FALSE)}
 TwoSameDoneEvo == {Cfg(2, <<1, 1>>, 2, {"done"}, TRUE)}
 TwoDiffDoneEvo == {Cfg(2, <<1, 2>>, 2, {"done"}, TRUE)}
-\* three workers
-Three(n, mixes) == {Cfg(3, g, n, ops, evo) : g \in {<<1, 2, 3>>, <<1, 1, 2>>, <<1, 1, 1>>}, ops \in mixes, evo \in BOOLEAN}
-ThreeN2 == Three(2, {{"done"}, {"done", "skip"}, {"done", "done_end"}})
-ThreeN3Done == {Cfg(3, g, 3, {"done"}, evo) : g \in {<<1, 2, 3>>, <<1, 1, 2>>}, evo \in BOOLEAN}
 \* liveness instance
 Live == {Cfg(2, g, 2, ops, evo) : g \in {<<1, 2>>, <<1, 1>>}, ops \in {{"done", "skip"}, {"done", "done_end"}}, evo \in BOOLEAN}
-T1 == {CfgW(3, <<1, 2, 3>>, 2, {"done"}, FALSE, TRUE)}
-T2 == {CfgW(3, <<1, 1, 2>>, 2, {"done", "skip"}, TRUE, TRUE)}
-T3 == {CfgW(3, <<1, 2, 3>>, 2, {"done"}, FALSE, FALSE)}
-T4 == {CfgW(3, <<1, 2, 3>>, 3, {"done"}, FALSE, TRUE)}
+\* three workers, started one after the other (the constructor races are covered by the 2-worker sets)
+ThreeGroups == {<<1, 2, 3>>, <<1, 1, 2>>, <<1, 1, 1>>}
+ThreeWarm == {CfgW(3, g, 2, ops, evo, TRUE) : g \in ThreeGroups, ops \in {{"done"}, {"done", "skip"}, {"done", "done_end"}}, evo \in BOOLEAN}
+ThreeWarmN3 == {CfgW(3, g, 3, {"done"}, evo, TRUE) : g \in ThreeGroups, evo \in BOOLEAN}
+ThreeCold == {CfgW(3, g, 2, {"done"}, evo, FALSE) : g \in {<<1, 2, 3>>, <<1, 1, 2>>}, evo \in BOOLEAN}
+QuickSet == Two(2) \cup {CfgW(2, g, 3, {"done", "skip"}, evo, TRUE) : g \in {<<1, 2>>, <<1, 1>>}, evo \in BOOLEAN}
 =============================================================================
